@@ -148,6 +148,14 @@ where
         }
     }
 
+    /// frames addressed to other devices on a shared link must never be answered
+    fn is_for_configured_unit(&mut self, destination: FrameDestination) -> bool {
+        match destination {
+            FrameDestination::UnitId(unit_id) => self.handlers.get(unit_id).is_some(),
+            FrameDestination::Broadcast => false,
+        }
+    }
+
     async fn handle_frame(&mut self, io: &mut PhysLayer, frame: Frame) -> Result<(), RequestError> {
         let mut cursor = ReadCursor::new(frame.payload());
 
@@ -160,6 +168,9 @@ where
                 Some(x) => x,
                 None => {
                     tracing::warn!("received unknown function code: {}", value);
+                    if !self.is_for_configured_unit(frame.header.destination) {
+                        return Ok(());
+                    }
                     return self
                         .reply_with_error_generic(
                             io,
@@ -176,6 +187,9 @@ where
             Ok(x) => x,
             Err(err) => {
                 tracing::warn!("error parsing {:?} request: {}", function, err);
+                if !self.is_for_configured_unit(frame.header.destination) {
+                    return Ok(());
+                }
                 return self
                     .reply_with_error(io, frame.header, function, ExceptionCode::IllegalDataValue)
                     .await;
